@@ -22,13 +22,16 @@ from rules.C01 import check_prefix
 
 
 def run(ctx, out, tier):
+    from rules.C12 import check_walkfiles
+    check_walkfiles(ctx, out, rule="C15.walkfiles")
     fp = file_parser(ctx)
     n = 0
     samples = []
     if fp is None:
         out.inst("C15.ignore", 0, 3, note="file parser not found")
     else:
-        from rules.C02 import parser_call_sites
+        from rules.C02 import parser_call_sites, check_consume
+        check_consume(ctx, out, fp, "C15.consume")
         for b, bi, t in parser_call_sites(ctx, fp):
             if True:
                 in_walk = any(bi in (util.iter_region(b, nb) | set(bl)) for h, bl, nb in util.loop_of_next(ctx, b, r"FileSystem::walk\("))
@@ -135,6 +138,8 @@ def run(ctx, out, tier):
 
     # ------------------------------------------------------------------ C15.prefix
     check_prefix(ctx, out)
+    from rules.C01 import check_skipfile
+    check_skipfile(ctx, out, rule="C15.skipfile")
 
     # ------------------------------------------------------------------ C15.root
     k = 0
@@ -259,7 +264,12 @@ def check_globs_merge(ctx, out, rule="C15.globs"):
                 top = P.has_path(labs, "globs") and any(lab[2][:1] == ("globs",) for lab in labs)
                 sub = any("command" in lab[2] and "globs" in lab[2] for lab in labs)
                 ign = any(lab[2][:1] == ("ignore",) for lab in labs)
-                if ign and not top and not sub:
+                altered = sorted({lab[1] for lab in labs if lab[0] == "call" and re.search(r"(<impl str>|string::String|str::pattern|std::path::Path|std::path::PathBuf|std::ffi::OsStr)::", lab[1])
+                                  and not re.search(r"::(as_str|as_ref|len|is_empty|iter|deref|borrow|clone|to_owned|to_string|as_bytes|chars)$", lab[1])})
+                if altered:
+                    out.viol(rule, "%s|%s|altered" % (rule, b.name), ctx.where(b, t["span"]),
+                             "the pattern handed to Glob::new has passed through %s: a glob is compiled exactly as the user wrote it (a rewritten pattern matches a different set of files — `.ci/**` is not `ci/**`)" % [a.split("::")[-1] for a in altered])
+                elif ign and not top and not sub:
                     n += 1
                 elif top and sub and not ign:
                     n += 1
